@@ -132,4 +132,27 @@ Proof.
   apply filter_In in Hm as [Hi Hp]. exists m. split; [assumption|]. split; [|reflexivity].
   symmetry. apply Hs. exact Hp.
 Qed.
+
+(* What the session makes of a batch: its packetInput folded over the messages that pass the
+   source filter.  A message on which packetInput changes nothing - C06: every datagram that fails
+   the integrity check or is too short - can be inserted anywhere in any batch, from the peer's
+   own address or from any other, without changing the state the batch leaves behind. *)
+Section RxFold.
+Context {S : Type}.
+Variable input : S -> P -> S.
+
+Definition rx_state (a : Addr) (st : S) (ms : list (@rmsg Addr P)) : S :=
+  fold_left input (fed (rx_batch same (Some a) ms)) st.
+
+Theorem rx_noop_insert a st xs (m : @rmsg Addr P) ys :
+  (forall st', input st' (m_pl m) = st') ->
+  rx_state a st (xs ++ m :: ys) = rx_state a st (xs ++ ys).
+Proof.
+  intros Hn. unfold rx_state. rewrite rx_insert.
+  assert (E : fed (rx_batch same (Some a) (xs ++ ys)) =
+              fed (rx_batch same (Some a) xs) ++ fed (rx_batch same (Some a) ys)).
+  { rewrite !rx_batch_filter. cbn [fed]. rewrite filter_app, map_app. reflexivity. }
+  rewrite E, !fold_left_app. destruct (passes a m); cbn [app fold_left]; [rewrite Hn|]; reflexivity.
+Qed.
+End RxFold.
 End RxP.
